@@ -52,6 +52,7 @@ type c12Obs struct {
 	MaxDepth int       `json:"max_depth"`
 	MaxRefs  int       `json:"max_refs"`
 	Static   bool      `json:"static_ok"` // scparser.IsScriptCorrect(script, nil) == nil
+	F50Shape bool      `json:"f50_shape"` // a REMOVE on a Map entry whose value reaches the map itself was executed (finding F50)
 }
 
 // c12Boundaries: instruction offsets of a linear decoding from offset 0 (nil if some instruction does not decode)
@@ -113,7 +114,7 @@ func c12Exec(co *caseOut, kind string, in c12Input) (c12Obs, bool) {
 		}
 	}
 	v.SetOnExecHook(func(_ util.Uint160, off int, op opcode.Opcode) {
-		if len(obs.Refs) < c12TraceMax {
+		if len(obs.Refs) < c12TraceMax && !obs.F50Shape {
 			obs.Refs = append(obs.Refs, v.VerifRefs())
 		}
 		if obs.Static && bad == "" && off != len(script) && !bounds[off] {
@@ -122,6 +123,9 @@ func c12Exec(co *caseOut, kind string, in c12Input) (c12Obs, bool) {
 		check(fmt.Sprintf("before instruction #%d at offset %d (%s)", obs.Res.Steps, off, op))
 		if c12ClosesCycle(v, op) {
 			obs.EverCyc = true
+		}
+		if c12F50Shape(v, op) {
+			obs.F50Shape = true // from here on the counter of the unrepaired VM may be one short: the trace is not compared
 		}
 		obs.Res.Steps++
 	})
